@@ -328,6 +328,17 @@ func verifApiConfigDigest(i *ircserver.IRCServer) (rev uint64, base string, bann
 func verifApiBaseDigest(cfg config.Network) string {
 	cfg.Revision = 0
 	cfg.Banned = nil
+	// an origin mapped to false means the same as an absent one (OriginWhitelisted reads the value), and the
+	// snapshot encoding legitimately drops such entries: compare the origins that are switched on
+	if cfg.WhitelistedOrigins != nil {
+		on := map[string]bool{}
+		for o, yes := range cfg.WhitelistedOrigins {
+			if yes {
+				on[o] = true
+			}
+		}
+		cfg.WhitelistedOrigins = on
+	}
 	h := sha256.New()
 	verifApiDump(h, reflect.ValueOf(cfg))
 	return hex.EncodeToString(h.Sum(nil))[:16]
